@@ -69,3 +69,19 @@ PROPS["C20"] = dict(
     rule="non-trivial = >=2 rendered progress lines checked and >=2 step events; distinct by SHA-1 of the case JSON",
     tests=[dict(name="TestVF_C20", quick=dict(checks=80000, shards=8, timeout=300), thorough=dict(checks=4000000, shards=16, timeout=3000))],
 )
+
+PROPS["C16"] = dict(
+    level="exploration", engine="E1 unit",
+    technique="property-based testing (rapid): grammar-generated noise of the documented kinds inserted into generated protocol lines, arbitrary chunking, exact-recovery oracle",
+    level_text="Random search over (1-3 protocol lines over the protocol alphabet, documented tmux / Windows-console noise at generated positions "
+               "and multiplicities, optional Ctrl-C, arbitrary chunking) through the real recvLine in tmux-junk and Windows framing; oracle = "
+               "the exact payload comes back, or the interrupt error when a Ctrl-C precedes the terminator.",
+    level_note="Only the documented noise shapes are generated (DESIGN.md C16): a cursor-position sequence is followed by the re-printed "
+               "character only in the wrap form; a bare cursor move is emitted only while no LF was seen since the last kept letter. "
+               "The Windows rules are heuristics; outside these shapes nothing is asserted.",
+    rule="non-trivial = >=1 noise item placed inside a payload; distinct by SHA-1 of the case JSON",
+    tests=[
+        dict(name="TestVF_C16", quick=dict(checks=100000, shards=8, timeout=300), thorough=dict(checks=3000000, shards=16, timeout=3000)),
+        dict(name="TestVF_C16KnownF12", rapid=False, quick=dict(shards=1, timeout=60), thorough=dict(shards=1, timeout=60)),
+    ],
+)
